@@ -550,11 +550,8 @@ def _out_keys(a):
   return spec
 
 
-def build(case, with_slicers=True, data_source=None, slicer_subset=None):
-  from ml_metrics._src.chainables import transform
-  t = transform.TreeTransform()
-  if data_source is not None:
-    t = t.data_source(data_source)
+def add_pre(t, case):
+  """Appends the pre-aggregate operators of the case to the transform."""
   for op in case['pre']:
     if op['op'] == 'assign':
       t = t.assign(op['out'], fn=PRE_FNS[op['fn']], input_keys=tuple(op['in'])
@@ -569,7 +566,12 @@ def build(case, with_slicers=True, data_source=None, slicer_subset=None):
                   output_keys=tuple(op['out']))
     else:
       raise ValueError(op)
-  for i, a in enumerate(case['aggs']):
+  return t
+
+
+def add_aggs(t, aggs):
+  """Appends aggregates: the first through aggregate(), the others stacked."""
+  for i, a in enumerate(aggs):
     kw = {'fn': make_agg(a)}
     ik, ok = _in_keys(a), _out_keys(a)
     if ik is not None:
@@ -583,6 +585,16 @@ def build(case, with_slicers=True, data_source=None, slicer_subset=None):
       t = t.aggregate(fn, **kw)
     else:
       t = t.add_aggregate(**kw)
+  return t
+
+
+def build(case, with_slicers=True, data_source=None, slicer_subset=None):
+  from ml_metrics._src.chainables import transform
+  t = transform.TreeTransform()
+  if data_source is not None:
+    t = t.data_source(data_source)
+  t = add_pre(t, case)
+  t = add_aggs(t, case['aggs'])
   if with_slicers:
     for j, s in enumerate(case['slicers']):
       if slicer_subset is not None and j not in slicer_subset:
@@ -593,6 +605,10 @@ def build(case, with_slicers=True, data_source=None, slicer_subset=None):
 
 def _name(n):
   return tuple(n) if isinstance(n, list) else n
+
+
+def add_slice(t, s):
+  return _add_slice(t, s)
 
 
 def _add_slice(t, s):
